@@ -109,6 +109,59 @@ func runBuild(c *Ctx) {
 			}
 		}
 	}
+	// the same list assembled at its final size: make(len(sig)+1); copy(list, sig); list[len(sig)] = errType
+	if mk, ok := funcOf.Common().Args[1].(*ssa.MakeSlice); ok && !outSig {
+		var sig *ssa.Call
+		lenOfSig := func(v ssa.Value) bool {
+			cl, ok := v.(*ssa.Call)
+			return ok && sig != nil && core.CalleeName(cl.Common()) == "builtin.len" && cl.Common().Args[0] == ssa.Value(sig)
+		}
+		copied, errLast, other := false, false, false
+		for _, ref := range *mk.Referrers() {
+			switch x := ref.(type) {
+			case *ssa.Call:
+				if core.CalleeName(x.Common()) == "builtin.copy" && x.Common().Args[0] == ssa.Value(mk) {
+					if cl, ok := isCallTo(x.Common().Args[1], "Signature"); ok && isSet(cl.Common().Args[0], outP) {
+						sig, copied = cl, true
+					}
+				}
+			}
+		}
+		for _, ref := range *mk.Referrers() {
+			switch x := ref.(type) {
+			case *ssa.IndexAddr:
+				for _, r2 := range *x.Referrers() {
+					st, ok := r2.(*ssa.Store)
+					if !ok {
+						continue
+					}
+					ld, isLd := st.Val.(*ssa.UnOp)
+					if isLd && lenOfSig(x.Index) {
+						if g, ok := ld.X.(*ssa.Global); ok && g == p.ErrTypeGlobal() {
+							errLast = true
+							continue
+						}
+					}
+					other = true
+				}
+			case *ssa.Call:
+				if x != funcOf && !(core.CalleeName(x.Common()) == "builtin.copy" && x.Common().Args[0] == ssa.Value(mk)) {
+					other = true
+				}
+			case *ssa.Slice:
+				other = true
+			}
+		}
+		sized := false
+		if b, ok := mk.Len.(*ssa.BinOp); ok && b.Op == token.ADD {
+			if k, isK := core.ConstInt(b.Y); isK && k == 1 && lenOfSig(b.X) {
+				sized = true
+			}
+		}
+		if copied && errLast && sized && !other {
+			outSig = true
+		}
+	}
 	c.R.Add("BUILD", "BuildFunc|signature", "BuildFunc", p.InstrPos(funcOf), inSig && outSig,
 		"the built function takes the input set's rendered signature and returns the output set's rendered signature followed by an error", fmt.Sprintf("inputs=%v outputs+error=%v", inSig, outSig))
 	// B4 wrapping
@@ -199,6 +252,28 @@ func runBuild(c *Ctx) {
 	}
 	c.R.Add("BUILD", "body|callback-error-is-final-result", core.FuncName(body), p.Pos(body.Pos()), errRet, "when the callback fails the generated function returns the rendered outputs followed by that very error", fmt.Sprintf("ok=%v", errRet))
 	c.R.Add("BUILD", "body|success-returns-outputs-and-nil", core.FuncName(body), p.Pos(body.Pos()), okRet, "when the callback succeeds the generated function returns the rendered outputs followed by a nil error", fmt.Sprintf("ok=%v", okRet))
+	// between loading the arguments and rendering the outputs the generated function itself touches neither set: the
+	// only writers are the loader (FromSignature) and the caller's callback
+	{
+		wr := ""
+		p.RegionInstrs(body, func(in ssa.Instruction) {
+			switch x := in.(type) {
+			case *ssa.Store:
+				if _, isLocal := x.Addr.(*ssa.Alloc); isLocal || p.FreshIn(x.Addr) {
+					return
+				}
+				if fr, ok := core.AsFieldAddr(x.Addr); ok && (fr.Owner == "Value" || fr.Owner == "valueInternal" || fr.Owner == "ValueSet") {
+					wr = "store to " + fr.Owner + "." + fr.Field + " at " + p.InstrPos(x)
+				}
+			case *ssa.MapUpdate:
+				if fr, ok := core.AsFieldLoad(x.Map); ok && fr.Owner == "ValueSet" && !p.FreshIn(x.Map) {
+					wr = "update of ValueSet." + fr.Field + " at " + p.InstrPos(x)
+				}
+			}
+		})
+		c.R.Add("BUILD", "body|sets-written-only-by-loader-and-callback", core.FuncName(body), p.Pos(body.Pos()), wr == "",
+			"the generated function does not itself modify the input or output set (input and output may be one set: a reset of the outputs would wipe the loaded arguments)", ternary(wr == "", "no direct write", wr))
+	}
 	c.R.Add("BUILD", "body|only-these-exits", core.FuncName(body), p.Pos(body.Pos()), len(core.Returns(body)) == 2 || (singleExit && len(core.Returns(body)) == 1), "the generated function has exactly the success and the failure exit", fmt.Sprintf("returns=%d", len(core.Returns(body))))
 
 	// ---------------- VSET
